@@ -34,7 +34,7 @@ func ZvC19_S2_SList() {
 	x0 := zvFresh(&used)
 	l := Init(x0)
 	ref := []int{x0}
-	steps := vrt.Choice(vrt.Pick(4, 6)) + 1
+	steps := vrt.Choice(vrt.Pick(4, 5)) + 1
 	for s := 0; s < steps; s++ {
 		op := vrt.Choice(8)
 		panicked := vrt.Try(func() {
@@ -113,7 +113,7 @@ func ZvC19_S2_DList() {
 	x0 := zvFresh(&used)
 	l := InitDList(x0)
 	ref := []int{x0}
-	steps := vrt.Choice(vrt.Pick(4, 6)) + 1
+	steps := vrt.Choice(vrt.Pick(4, 5)) + 1
 	for s := 0; s < steps; s++ {
 		op := vrt.Choice(9)
 		panicked := vrt.Try(func() {
